@@ -672,4 +672,16 @@ def join_ok(P, f):
     writes = [c for c in f.calls() if any(a.get('k') in ('Copy', 'Move') and a['place']['local'] in mt for a in c['term']['args'])]
     okw = len(writes) == 1 and re.search(r'(Vec::<T, A>::push|ItemPath::push)$', writes[0]['path'] or '') is not None and \
         strip(f.expr_of_operand(writes[0]['term']['args'][1])) == ('arg', 2, f.names.get(2, 'segment')) and not f.loops()
+    if not okinit and init[0] == 'call' and re.search(r'Vec::<T>::(with_capacity|new)$', init[1]) and len(writes) == 2 and not f.loops():
+        # an empty vector filled with all own segments (`extend_from_slice(&self.0)` / `extend(self.0.iter().cloned())`) and then the
+        # argument: the same copy, pre-sized
+        w0, w1 = sorted(writes, key=lambda c: c['block'])
+        src0 = strip(expand(f, f.expr_of_operand(w0['term']['args'][1]))) if len(w0['term']['args']) > 1 else ('x',)
+        while src0[0] == 'call' and src0[2] and re.search(r'(Deref>::deref|::as_slice|::iter|::cloned|::clone|IntoIterator>::into_iter|::borrow|::as_ref)$', src0[1]):
+            src0 = strip(src0[2][0])
+        own = src0 == ('field', ('arg', 1, 'self'), '0')
+        ok0 = re.search(r'(Vec::<T, A>::extend_from_slice|Extend<.*>>::extend)$', w0['path'] or '') is not None and own and f.dominates(w0['block'], w1['block'])
+        ok1 = re.search(r'(Vec::<T, A>::push|ItemPath::push)$', w1['path'] or '') is not None and strip(f.expr_of_operand(w1['term']['args'][1])) == ('arg', 2, f.names.get(2, 'segment'))
+        if ok0 and ok1:
+            return True, 'empty vector filled with the own segments, then the argument'
     return bool(okinit and okw), 'copy of %s, writes %s' % (show(init)[:40], [short(c['path']) for c in writes])
